@@ -109,6 +109,8 @@ def check_program(item):
     res["strings"] = base[-2]
     for row in rows:
         fl = flags_of(row)
+        if any(f in fl for f in item.get("skip_rows_with", ())):
+            continue        # this program reads bytes that such a configuration leaves undefined
         st, d = digests(src, argv + fl, reps, L, eof)
         if st == "cbuild_failed":
             res["cbuild_failed"] += 1
@@ -156,12 +158,12 @@ def run(tier, seed):
     rows = covering(2 if tier == "quick" else 3)
     L = 4 if tier == "quick" else 5
     items = []
-    sp = [p for p in strprogs.programs() if p.get("storage_only") is None]    # (those read bytes that only some storage modes define)
+    sp = [p for p in strprogs.programs() if p.get("storage_only") is None or p.get("skip_rows_with")]    # (the others read bytes that only some storage modes define)
     base = progs.corpus() + progs.features() + [dict(label="Y#%d" % i, src=s, argv=a, ast=None) for i, (s, a) in enumerate(c02.yield_programs())]
     uni = progs.universe_slice(1, step=13 if tier == "quick" else 3, offset=seed) + progs.universe_slice(2, step=1501 if tier == "quick" else 97, offset=seed)
     for i, p in enumerate(sp + base + uni):
         rs = rows if (tier == "thorough" or i < len(sp) + 12) else rows[(i + seed) % 3::3]
-        items.append(dict(label=p["label"], src=p["src"], argv=p["argv"], alphabet=p.get("alphabet"), L=L if p.get("alphabet") is None else L + 1, rows=rs))
+        items.append(dict(label=p["label"], src=p["src"], argv=p["argv"], alphabet=p.get("alphabet"), L=L if p.get("alphabet") is None else L + 1, rows=rs, skip_rows_with=p.get("skip_rows_with", ())))
     stats = dict(option_sets=len(rows), programs_accepted=0, rejected=0, cbuild_failed=0, configs_compared=0)
     for idx, r in pmap(check_program, items, timeout=1200, chunksize=1, stop=ck.enough):
         if "harness_error" in r or "harness_timeout" in r:
